@@ -216,7 +216,7 @@ def report_failures(sim, failures, minimise_budget_s, findings=None):
             lines.append("KNOWN-FINDING: property=%s %s [clause %s; replay=%s]" % (
                 prop, entry.get("what", ""), viol.clause, path))
         else:
-            violations.append((viol, path))
+            violations.append((viol, path, ok))
             lines.append("VIOLATION property=%s replay=%s" % (prop, path))
             lines.append("  clause=%s %s" % (viol.clause, viol.message))
     return violations, known_hits, lines
@@ -358,8 +358,15 @@ def run_check(prop, tier):
     if stuck:
         print("WARNING probes stuck at zero: %s" % ", ".join(stuck))
     if det_failed:
-        # reported after the batch summary so that what the batch found is not lost; nothing a nondeterministic
-        # run reports is trusted, hence still a harness error (typical cause: /repo edited while the check ran)
+        # Reported after the batch summary so that what the batch found is not lost.  A violation whose replay file failed the
+        # same way in a fresh interpreter stands on its own (the tree under test may itself have become dependent on hash
+        # order or on the clock -- seeded change c19p iterates over a set of strings); without one, nothing a nondeterministic
+        # batch reports is trusted: harness error (typical cause: /repo edited while the check ran)
+        if any(v[2] for v in violations):
+            print("WARNING determinism self-test failed for run indices %r: the tree under test does not behave the same from one "
+                  "interpreter to the next; the violations above were each reproduced from their replay file in a fresh "
+                  "interpreter" % (det_failed,))
+            return 1
         raise HarnessError("determinism self-test failed for run indices %r" % (det_failed,))
     if tot["runs"] == 0:
         raise HarnessError("no run completed")
